@@ -93,7 +93,7 @@ func isGlobalLoad(v ssa.Value, pkgPath, name string) bool {
 }
 
 func checkC16(c *Ctx) {
-	c.Explanation = "Decides the structure that makes rtcmlogger a lossless tee: (R1) in the copy loop every successful read of n>0 bytes from standard input is followed, before the next read and on every path, by exactly one write of readBuffer[:n] (same buffer, same n) to standard output and then exactly one send to the recorder; the only edges that bypass them are end-of-file and n==0; (R2) what is sent to the recorder is a fresh buffer of length n filled by copy from readBuffer[:n], so the recorder never aliases the buffer that the next read overwrites; (R3) the recorder writes every block it receives, unmodified, before its next receive and leaves its loop only when the channel is closed; (R4) start closes the recorder channel and waits for the recorder goroutine before returning, on every path (join rule of C11). R1 also requires that every return of the copy loop is reached over an err == io.EOF edge on every path. (R6) the copy loop, the recorder, start and the module functions they call outside the logger package are free of index, slice, bit-read, division, shift, assertion and make panics (the arithmetic obligations of C07, discharged by linear entailment)."
+	c.Explanation = "Decides the structure that makes rtcmlogger a lossless tee: (R1) in the copy loop every successful read of n>0 bytes from standard input is followed, before the next read and on every path, by exactly one write of readBuffer[:n] (same buffer, same n) to standard output and then exactly one send to the recorder; the only edges that bypass them are end-of-file and n==0; (R2) what is sent to the recorder is a fresh buffer of length n filled by copy from readBuffer[:n], so the recorder never aliases the buffer that the next read overwrites; (R3) the recorder writes every block it receives, unmodified, before its next receive and leaves its loop only when the channel is closed; (R4) start closes the recorder channel and waits for the recorder goroutine before returning, on every path (join rule of C11). R1 also requires that every return of the copy loop is reached over an err == io.EOF edge on every path. (R6) the copy loop, the recorder, start and the module functions they call outside the logger package are free of index, slice, bit-read, division, shift, assertion and make panics (the arithmetic obligations of C07, discharged by linear entailment). (R7) nothing reachable from start closes standard input or output, or wraps a descriptor in a second os.File (os.NewFile: the new object's finalizer closes the descriptor at the next garbage collection), or calls syscall.Close/Dup2."
 	c.NotDecided = "dailylogger's own file handling and midnight gating (dependency); what os.File.Read/Write do; partial writes to stdout (ignored by design); a read that returns n>0 together with io.EOF (os.File never does)."
 	c.Assumptions = append(c.Assumptions, "os.File.Read returns (0, io.EOF) at end of file, never n>0 together with io.EOF", "io.Reader contract: n, err := r.Read(p) gives 0 <= n <= len(p)")
 	P := c.P
@@ -431,6 +431,8 @@ func checkC16(c *Ctx) {
 		// the logger package (midnight rotation, pushing old logs) runs beside the tee, not in it
 		return fn.Pkg == nil || !strings.HasSuffix(fn.Pkg.Pkg.Path(), "apps/rtcmlogger/logger")
 	})
+	// ---- R7 the standard descriptors stay as the runtime opened them
+	ruleStdDescriptorsLeftAlone(c, "C16-R7", []*ssa.Function{start})
 	c.MinInstances("C16-R5", 1)
 	c.MinInstances("C16-R1", 8)
 	c.MinInstances("C16-R2", 1)
@@ -579,4 +581,58 @@ func isFreshSlice(v ssa.Value) bool {
 		}
 	}
 	return false
+}
+
+// ruleStdDescriptorsLeftAlone (C16-R7): the tee reads descriptor 0 and writes descriptor 1 through os.Stdin and
+// os.Stdout for as long as it runs.  A second os.File made for one of them with os.NewFile closes it when it
+// is garbage collected; Close on the standard files and raw syscall.Close/Dup2/Dup3 end the stream likewise.
+func ruleStdDescriptorsLeftAlone(c *Ctx, rule string, roots []*ssa.Function) {
+	P := c.P
+	n, bad := 0, 0
+	for fn := range P.ReachableModule(roots) {
+		if !P.InModule(fn) {
+			continue
+		}
+		n++
+		eachInstr(fn, func(ins ssa.Instruction) {
+			ci, ok := ins.(ssa.CallInstruction)
+			if !ok {
+				return
+			}
+			f := ci.Common().StaticCallee()
+			if f == nil {
+				return
+			}
+			full := calleeFullName(f)
+			switch {
+			case full == "os.NewFile":
+				// kept alive for the life of the process in a package-level variable: harmless
+				if v, ok := ins.(ssa.Value); ok {
+					for _, r := range referrers(v) {
+						if st, ok := r.(*ssa.Store); ok {
+							if _, isG := st.Addr.(*ssa.Global); isG {
+								return
+							}
+						}
+					}
+				}
+				bad++
+				c.Fail(rule, "std-descriptors("+P.FnKey(fn)+")", ins.Pos(), "refuted", "os.NewFile wraps a descriptor in a second os.File whose finalizer closes it at a later garbage collection: if it is a standard descriptor the pass-through stops in mid-stream")
+			case full == "syscall.Close" || full == "syscall.Dup2" || full == "syscall.Dup3":
+				bad++
+				c.Fail(rule, "std-descriptors("+P.FnKey(fn)+")", ins.Pos(), "refuted", full+" in the tee: a descriptor can be closed or replaced under os.Stdin/os.Stdout")
+			case full == "(*os.File).Close":
+				a := ci.Common().Args
+				if len(a) > 0 && (isGlobalLoad(a[0], "os", "Stdin") || isGlobalLoad(a[0], "os", "Stdout")) {
+					bad++
+					c.Fail(rule, "std-descriptors("+P.FnKey(fn)+")", ins.Pos(), "refuted", "a standard stream is closed while the tee may still use it")
+				}
+			}
+		})
+	}
+	if n == 0 {
+		c.Fail(rule, "std-descriptors", token.NoPos, "unresolved", "no functions reachable from start")
+	} else if bad == 0 {
+		c.OK(rule, "std-descriptors", roots[0].Pos(), fmt.Sprintf("no os.NewFile, syscall.Close/Dup2/Dup3 or Close of a standard stream in the %d module functions reachable from start", n))
+	}
 }
